@@ -141,10 +141,26 @@ PROPS = {
    note="Trusts the harness's de-framers (HTTP chunked/length, CGI, FastCGI records, zlib inflate) and the simulated socket semantics.",
    technique="deterministic simulation: real response stack on simulated sockets with arbitrary partial writes / EAGAIN, independent de-framer + byte pattern oracle",
    design_ref="DESIGN.md s4 C03, s3 E1"),
+ "C12": dict(engine="E1 wire", src="e1_wire", variants=["asan"], level="exploration",
+   seconds={"quick": 50, "thorough": 800},
+   rule="case = as C01, with 80% of POST/PUT bodies being multipart/form-data: 0..9 parts (quoted/unquoted names, optional filename, optional Content-Type => file vs field), contents 0..300 KB of random bytes / CR-LF-dash runs with planted look-alikes of the delimiter (every proper prefix of CRLF--boundary, delimiter minus last byte at the end, CRLF-- in the middle), "
+        "boundaries of 1..70 chars incl. leading '-', sent over http/scgi/fastcgi to sync and async mounts with client segmentation, FastCGI STDIN record sizes, input_buffer_size 1..64K and transport read splitting deciding every parser chunk; file_in_memory_limit 0..128K (spill to temp files); content/multipart limits 1 KB..2 MB. "
+        "Oracle: fields and files observed by the application (name, file name, media type, byte-exact content by length+hash+head+tail, order) equal those encoded; bodies over a limit get 413 and never reach the handler; malformed multipart bodies (C02 operators: no final boundary, bad part header, not form-data, truncation, length lies) never reach the handler; "
+        "the upload directory is empty after the run. non-trivial = run with a body or >= 2 segments; distinct = trace hash",
+   fault_keys=["short_reads", "short_writes", "eagain", "eintr", "spurious_wakeups"],
+   probe_keys=["requests_with_body", "over_limit_413", "multi_segment_requests", "keepalive_followups"],
+   components=E1C,
+   assumptions=["content filters (raw_content_filter / multipart_filter callbacks) are not exercised yet", "temp files live on a real scratch directory under /dev/shm (file I/O of uploads is not simulated); fwrite failures are not injected",
+                "media type is compared without parameters (file::mime() documents the media type)"],
+   category="exploration",
+   text="Deterministic simulation of uploads through the real front-ends and multipart parser: seeded part lists with adversarial boundary look-alikes, every chunking decided by client segmentation, buffer sizes and transport splitting; exact reconstruction, limits and temp-file clean-up are checked.",
+   note="Trusts the harness's multipart encoder and model; upload spill files use the real file system.",
+   technique="deterministic simulation: real multipart/upload path on simulated sockets, seeded chunking + adversarial contents, exact-reconstruction oracle",
+   design_ref="DESIGN.md s4 C12, s3 E1"),
 }
 
 ENGINES = [
- {"name": "E1 wire", "path": "harness/e1_wire.cpp", "serves_properties": ["C01", "C02", "C03"], "kind_free_text": "real cppcms::service with http/scgi/fastcgi front-ends on simulated sockets, clock and scheduler; simulated peers"},
+ {"name": "E1 wire", "path": "harness/e1_wire.cpp", "serves_properties": ["C01", "C02", "C03", "C12"], "kind_free_text": "real cppcms::service with http/scgi/fastcgi front-ends on simulated sockets, clock and scheduler; simulated peers"},
  {"name": "E6 loop", "path": "harness/e6_loop.cpp", "serves_properties": ["C17"], "kind_free_text": "real io_service/reactors/timers/stream_socket/thread_pool on simulated descriptors, clock and scheduler"},
  {"name": "E7 crashfs", "path": "harness/e7_crashfs.cpp", "serves_properties": ["C18"], "kind_free_text": "real session_file_storage over the simulated disk; crash states enumerated from the write journal"},
  {"name": "E3 cache-conc", "path": "harness/e3_cache_conc.cpp", "serves_properties": ["C09"], "kind_free_text": "real threads on the real cache under the seeded scheduler; TSan/ASan + linearizability checker"},
